@@ -27,7 +27,7 @@ LEVEL = "other"
 EXPLANATION = ("Decides, on the control-flow graph and the flag's def-use sites, the structural clauses of C17: the flag "
                "is saved, set and restored on every normal and exceptional exit; it has one writer; every reader is a "
                "live read with a 'flag => raise' shape; validators cover names/identifiers; write-time checks dominate "
-               "record generation. Not decided: that every accepted specification satisfies all restrictions at once "
+               "record generation; the enum converter lets a text through on the strength of the member values only. Not decided: that every accepted specification satisfies all restrictions at once "
                "(a runtime quantity) - only that each restriction has an enforcing site on a path every build/write "
                "must take.")
 
